@@ -343,6 +343,24 @@ func reflectStubs() map[string]StubFn {
 			c.reflectPanic("call of Value.IsNil on " + reflectKind(r.T).String() + " Value")
 		}
 	})
+	// Pointer(): an address; only equality of addresses is meaningful: distinct objects get distinct numbers
+	both("Pointer", func(c *CallCtx) {
+		r := unwrapRV(c.args[0])
+		v := c.ex.rvGet(c.st, r)
+		if isNilValue(v) {
+			c.Return(BVC(64, 0))
+			return
+		}
+		p, ok := v.(Ptr)
+		if !ok {
+			unsupported("reflect.Value.Pointer on %T", v)
+		}
+		off := uint64(0)
+		for _, pe := range p.Path {
+			off = off*64 + uint64(pe.Field+2)*8 + uint64(pe.Idx)
+		}
+		c.Return(BVC(64, 0xc000000000+uint64(p.Obj)*0x10000+off%0x10000))
+	})
 	both("Len", func(c *CallCtx) {
 		r := unwrapRV(c.args[0])
 		v := c.ex.rvGet(c.st, r)
